@@ -45,7 +45,7 @@ def build(kind, root):
 
 
 def main():
-    kinds = ["rename", "noop", "flipcmp", "extract", "inline", "inlineall", "ifswap", "elsewrap", "unelse"]
+    kinds = ["rename", "noop", "flipcmp", "extract", "inline", "inlineall", "ifswap", "elsewrap", "unelse", "ifexp"]
     props = ["C%02d" % i for i in range(1, 21)]
     baseline = keep = False
     argv = sys.argv[1:]
